@@ -27,7 +27,7 @@ NOT_SLOTS = {"_value", "_expr", "_tasks", "_hash", "_manager", "_op_str"}
 def fresh_world():
     import xdeps
     data = {"a": 4, "b": 9, "i": 1, "k": "p", "n": {"x": 2, "y": 6}, "l": [5, 8, 13],
-            "o": T.PObj(p=3, q=11), "fn": _inc, "out": None}
+            "o": T.PObj(p=3, q=11), "fn": _inc, "out": None, "p": 17, "q": 23}
     m = xdeps.Manager()
     s = m.ref(data, "s")
     f = m.ref(T.Funcs(), "f")
@@ -55,6 +55,7 @@ def base_fillers(s):
     return [
         ("item", s["a"]), ("attr", s["o"].q), ("nested", s["n"]["x"]), ("computed-key", s["l"][s["i"]]),
         ("computed-expr-key", s["l"][s["i"] - 1]),
+        ("computed-key-under-top-level-container", s[s["k"]]),
     ]
 
 
@@ -133,6 +134,7 @@ def constructors(refs, s, f, m):
                           ("_func(plain callable)", lambda x, c=cls: c(_inc, (x,), {"w": x}))]
         elif cls is refs.ItemRef:
             table[cls] = [("_key", lambda x, c=cls: c(s["l"], refs.ModExpr(x, 3), m)),
+                          ("_key(top-level owner)", lambda x, c=cls: c(s, refs.CallRef(_pq, (x,), ()), m)),
                           ("_owner", lambda x, c=cls: c(x, 0, m)),
                           ("_owner+_key", lambda x, c=cls: c(x, x, m))]
         elif cls is refs.AttrRef:
